@@ -1,8 +1,9 @@
 (** C04 — sampler results do not depend on worker scheduling or parallelism.
     Model: Sched/Sched.v (BatchHandler + iterate/_allow_submit/finished/infer over an abstract
-    method and an explicit readiness oracle), instance Sched/Reject.v.  Proofs: Proofs/C04_Sched.v. *)
+    method and an explicit readiness oracle), instance Sched/Reject.v.  Proofs: Proofs/C04_Sched.v,
+    Proofs/C04_Trace.v (what the trace predicate means). *)
 From Coq Require Import List ZArith NArith Arith Bool.
-From Elfi Require Import Sched.Sched Sched.Reject Proofs.C04_Sched.
+From Elfi Require Import Sched.Sched Sched.Reject Proofs.C04_Sched Proofs.C04_Trace.
 Import ListNotations.
 
 (** For every inference method whose supplied batch values do not change within a round, every
@@ -85,4 +86,69 @@ Example C04_example :
       && rows_eqb (res_rows (extract sf)) [Some (dr 1 3); Some (dr 2 4)]
   | _, _ => false
   end = true.
+Proof. vm_compute. reflexivity. Qed.
+
+(** ---- what [trace_ok maxp tr = Some n] means ----
+    [trace_ok] is a decidable checker; the conclusions above (and the correspondence, which applies it
+    to the implementation's client-call trace) are only as strong as what it enforces.  Stated with plain
+    functions over the trace (Proofs/C04_Trace.v): [gets tr] the indices of the EGet events in order,
+    [n_submit]/[n_get]/[n_cancel] the numbers of events of each kind,
+    [outstanding p = n_submit p - n_get p - n_cancel p], and
+    [live i p] = "p = p1 ++ ESubmit i :: p2 with neither ECancel i nor EGet i in p2". *)
+Definition trace_spec (maxp : nat) (tr : list event) (n : nat) : Prop :=
+  (* 1: consumed strictly in index order, each exactly once *)
+  gets tr = seq 0 n /\
+  (* 2: at every moment no more reads + removals than submissions, at most maxp tasks outstanding *)
+  (forall p q, tr = p ++ q -> n_get p + n_cancel p <= n_submit p /\ outstanding p <= maxp) /\
+  (* 3: nothing is left in the client at the end *)
+  n_submit tr = n_get tr + n_cancel tr /\
+  (* 4: the result of a cancelled batch is never used: a read of i after a cancel of i reads a task
+        submitted after that cancel *)
+  (forall p i q r, tr = p ++ ECancel i :: q ++ EGet i :: r -> In (ESubmit i) q) /\
+  (* 5: the i-th read reads index i, from a task that is in the client; is_ready is asked only about
+        that same task; only a task in the client is removed, and it is the newest one; a submission
+        takes the next free index and happens only below the limit *)
+  (forall p i r, tr = p ++ EGet i :: r -> In (ESubmit i) p /\ i = n_get p /\ live i p) /\
+  (forall p i b r, tr = p ++ EAsk i b :: r -> In (ESubmit i) p /\ i = n_get p /\ live i p) /\
+  (forall p i r, tr = p ++ ECancel i :: r -> live i p /\ Datatypes.S i = n_get p + outstanding p) /\
+  (forall p i r, tr = p ++ ESubmit i :: r -> i = n_get p + outstanding p /\ outstanding p < maxp).
+
+Theorem C04_trace_ok_meaning :
+  forall maxp tr n, trace_ok maxp tr = Some n -> trace_spec maxp tr n.
+Proof. exact trace_ok_meaning. Qed.
+Print Assumptions C04_trace_ok_meaning.
+
+(** and conversely: the statements 1-5 are all the checker asks for, so [trace_ok maxp tr = Some n]
+    and [trace_spec maxp tr n] say the same. *)
+Theorem C04_trace_ok_iff_spec :
+  forall maxp tr n, trace_ok maxp tr = Some n <-> trace_spec maxp tr n.
+Proof. intros maxp tr n. split; [exact (trace_ok_meaning maxp tr n) | exact (trace_ok_complete maxp tr n)]. Qed.
+Print Assumptions C04_trace_ok_iff_spec.
+
+(** For every schedule (oracle, max_parallel_batches >= 1) the client-call trace of [infer] has
+    properties 1-5 with n = the number of batches the sequential run consumes. *)
+Theorem C04_every_schedule_trace_meaning :
+  forall (S R P : Type) (objective consumed : S -> nat) (prepare : S -> nat -> P)
+         (compute : nat -> P -> R) (update : S -> R -> nat -> S * bool),
+    (forall s r i, snd (update s r i) = false -> forall j, prepare (fst (update s r i)) j = prepare s j) ->
+    forall maxp fuel s0 orc sf n,
+      1 <= maxp ->
+      seq_run S R P objective consumed prepare compute update fuel s0 0 = Some (sf, n) ->
+      exists s' tr',
+        infer S R P objective consumed prepare compute update fuel maxp
+              {| st := s0; next := 0; pending := [] |} orc [] = inl (s', tr') /\
+        st s' = sf /\ trace_spec maxp tr' n.
+Proof.
+  intros S R P objective consumed prepare compute update Hp maxp fuel s0 orc sf n Hm Hs.
+  destruct (C04_schedule_independent S R P objective consumed prepare compute update Hp
+              maxp fuel s0 orc sf n Hm Hs) as [s' [tr' [A [B [_ [_ E]]]]]].
+  exists s', tr'. split; [exact A | split; [exact B | exact (C04_trace_ok_meaning _ _ _ E)]].
+Qed.
+Print Assumptions C04_every_schedule_trace_meaning.
+
+(** Non-vacuity of the trace predicate: batch 1 is submitted, cancelled unread after batch 0 was
+    consumed, submitted again and then read. *)
+Example C04_trace_example :
+  trace_ok 2 [ESubmit 0; EAsk 0 false; ESubmit 1; EGet 0; ECancel 1; ESubmit 1; EAsk 1 true; EGet 1]
+  = Some 2.
 Proof. vm_compute. reflexivity. Qed.
